@@ -110,3 +110,25 @@ Definition parse_file (lines : list text) : res db := do s <- run st0 1 lines; O
 Definition db_len (d : db) : Z :=
   let n l := match l with None => 0 | Some x => Z.of_nat (length x) end in
   n (d_mtu d) + n (d_tcp_req d) + n (d_tcp_resp d) + n (d_http_req d) + n (d_http_resp d).
+
+(* ---- the text-mode reading glue: `open(path, "r")` iterates lines with universal newlines:
+   "\r\n" and a lone "\r" are read as "\n"; a line ends after each "\n"; a final unterminated piece
+   is a line only when it is non-empty.  Lines are handed to [step] without their terminator. ---- *)
+Fixpoint univ_nl (t : text) : text :=
+  match t with
+  | [] => []
+  | c :: r =>
+    if c =? 13 then
+      10 :: match r with
+            | d :: r' => if d =? 10 then univ_nl r' else univ_nl r
+            | [] => []
+            end
+    else c :: univ_nl r
+  end.
+Fixpoint split_nl (cur : text) (t : text) : list text :=
+  match t with
+  | [] => match cur with [] => [] | _ => [rev cur] end
+  | c :: r => if c =? 10 then rev cur :: split_nl [] r else split_nl (c :: cur) r
+  end.
+Definition file_lines (t : text) : list text := split_nl [] (univ_nl t).
+Definition parse_text (t : text) : res db := parse_file (file_lines t).
